@@ -75,6 +75,10 @@ func checkTree(k *run.K, t model.Tree, scan bool) {
 	if k.Lib("nopanic", func() { back, err = geom.UnmarshalWKB(lib, geom.NoValidate{}) }) {
 		return
 	}
+	if err == nil {
+		hp := shared.HiddenPayload(back)
+		k.Check("roundtrip", hp == "", "UnmarshalWKB: %s", hp)
+	}
 	if k.Check("roundtrip", err == nil, "UnmarshalWKB(AsBinary) error: %v", err) {
 		bt, iss := model.FromGeom(back)
 		k.Check("roundtrip", model.Equal(bt, t) && len(iss) == 0, "decode(encode(g)) differs: %s %v", model.Diff(bt, t), iss)
